@@ -10,3 +10,7 @@ pub mod stubs;
 #[cfg(kani)]
 #[path = "../../common/tracing_stubs.rs"]
 pub mod tracing_stubs;
+#[cfg(kani)]
+mod c05_update;
+#[cfg(kani)]
+mod c05_diag;
